@@ -163,6 +163,41 @@ def _emit_through_context(prog, mname):
         raise Undecided(f"Context.{mname} is outside the evaluable subset: {e}")
 
 
+def _emit_without_token(prog, mname):
+    """Context.<mname>(code, None) -- what a rule passes when it looked one token past the end -- on a context whose tokens end
+    with the newline of line 3 (a 3-line file), and with an identifier on line 3 (no final newline).  -> problem or None: either
+    the call raises (a crash is C05's business), or the position it records is inside the file."""
+    from .c04 import FormatterBench
+    from ..minieval import Obj, Unsupported
+    from ..xeval import Raised
+    try:
+        for last_kind, last_len in (("NEWLINE", 1), ("IDENTIFIER", 2)):
+            b = FormatterBench(prog)
+            ev = b.ev
+            errors = ev.instantiate("Errors", [], {})
+            file = Obj("File", path="t.c", basename="t.c", errors=errors)
+
+            def tk(kind, ln, col, length=1):
+                return Obj("Token", type=kind, value=None if kind == "NEWLINE" else "ab", pos=(ln, col), lineno=ln, column=col, length=length,
+                           unsafe_length=length, line=ln, col=col)
+            toks = [tk("IDENTIFIER", 1, 1, 2), tk("NEWLINE", 1, 3), tk("IDENTIFIER", 2, 1, 2), tk("NEWLINE", 2, 3), tk("IDENTIFIER", 3, 1, 2),
+                    tk(last_kind, 3, 3, last_len)]
+            ctx = Obj("Context", errors=errors, file=file, tokens=toks, debug=0)
+            try:
+                ev.call_method(ctx, mname, ["TOO_MANY_LINES", None], {})
+            except Raised:
+                continue
+            for e in ev.iterate(errors):
+                for h in ev.getattr(e, "highlights"):
+                    ln, col = ev.getattr(h, "lineno"), ev.getattr(h, "column")
+                    if not (isinstance(ln, int) and isinstance(col, int) and 1 <= ln <= 3 and col >= 1):
+                        return (f"Context.{mname}(code, None) on a 3-line file (last token {last_kind}) records the position ({ln}, {col}): "
+                                f"a line that is not in the file")
+        return None
+    except Unsupported as e:
+        raise Undecided(f"Context.{mname} is outside the evaluable subset: {e}")
+
+
 def _is_error_ctor(v) -> bool:
     return isinstance(v, ast.Call) and (text(v.func) in ("Error.from_name", "Error", "cls.from_name"))
 
@@ -307,6 +342,8 @@ def rule_positioned(run, prog):
         run.ob("R-8.3", f"{m.key}::positioned", ok,
                f"Context.{mname} does not add exactly one catalogue diagnostic positioned at the token (Highlight.from_token(tkn)): "
                f"{problem or shape}", m.node)
+        beyond = _emit_without_token(prog, mname)
+        run.ob("R-8.3", f"{m.key}::position-inside-the-file", beyond is None, beyond or "", m.node)
 
 
 def _contains(container, node) -> bool:
